@@ -257,6 +257,12 @@ def classify_keyed_store(m, r, f, key, val, container=None) -> tuple:
         uncovered = [p_ for p_ in need_paths if not any(k_ is not None and (p_ == k_ or p_.startswith(k_ + ".") or p_.startswith(k_ + "[")) for k_ in key_paths)]
         if uncovered:
             return "unknown", f"the entry is computed from `{sorted(uncovered)[0]}`, which the key `{norm(key)[:40]}` does not determine"
+        # keyed by an object itself (looked up with `==` / hash) while the entry is computed from that object's *attributes*: sound only if equal
+        # objects have equal attributes, which is a property of the object's class (numpy dtypes: `dtype(longlong) == dtype(int64)`, names differ)
+        bare = {k_ for k_ in key_paths if k_ is not None}
+        deeper = sorted(p_ for p_ in need_paths if any(p_.startswith(b_ + ".") for b_ in bare))
+        if deeper:
+            return "unknown", f"keyed by the object `{sorted(bare)[0]}` (compared with ==) while the entry is computed from its attributes (`{deeper[0]}`): equal objects need not have equal attributes"
     for part in (key, val):
         if part is None:
             continue
